@@ -351,15 +351,28 @@ type acquireSpec struct {
 	kind         string
 }
 
-func c01AcquireTracked(c *core.Ctx) {
+// acquireExempt: acquisitions that cannot create an object (one reason each).
+var acquireExempt = map[string]string{
+	"(*converters/ingress/annotations.updater).buildHostSSLPassthrough -> AcquireBackend": "re-acquires the backend the host's root path already references (hostBackend := rootPaths[0].Backend), created and linked by addBackend; used as a lookup",
+}
+
+func c01AcquireTracked(c *core.Ctx) { acquireTracked(c, true) }
+
+// c01AcquireTrackedBase is the variant shared with C15/C17 (links of hosts, backends, tcp services, acme storages).
+func c01AcquireTrackedBase(c *core.Ctx) { acquireTracked(c, false) }
+
+func acquireTracked(c *core.Ctx, withAuth bool) {
 	specs := []acquireSpec{
 		{"haproxy/types.Hosts).AcquireHost", "HAHostname"},
 		{"haproxy/types.Backends).AcquireBackend", "HABackend"},
 		{"haproxy/types.TCPServices).AcquireTCPService", "HATCPService"},
 		{"haproxy/types.AcmeStorages).Acquire", "AcmeData"},
 	}
+	if withAuth {
+		specs = append(specs, acquireSpec{"haproxy/types.Backends).AcquireAuthBackend", "HABackend"})
+	}
 	for _, fn := range c.SrcFuncs() {
-		if core.PkgOf(fn) != "converters/ingress" {
+		if core.PkgOf(fn) != "converters/ingress" && !(withAuth && core.PkgOf(fn) == "converters/ingress/annotations") {
 			continue
 		}
 		for _, s := range core.Calls(fn, false) {
@@ -372,6 +385,10 @@ func c01AcquireTracked(c *core.Ctx) {
 				c.Sites(1)
 				key := core.FuncName(fn) + " -> " + cn[strings.LastIndex(cn, ".")+1:]
 				call := s.Instr
+				if why, listed := acquireExempt[key]; listed {
+					c.Held(key, at(c, call), "reviewed exception: "+why)
+					continue
+				}
 				matches := func(in ssa.Instruction) bool { return isTrackCall(in) && trackKinds(c.Env, in)[sp.kind] }
 				pre := core.MustPrecede(fn, matches, func(x ssa.Instruction) bool { return x == call }) == nil
 				w := core.MustFollow(fn, call, matches)
